@@ -144,7 +144,7 @@ fn child_main(cli: &Cli, check: &'static dyn IsoCheck, k: usize, kk: usize, resu
     let progress_path = format!("{dir}/progress.{k}");
     let viol_path = format!("{dir}/violations.{k}.jsonl");
     let final_path = format!("{dir}/final.{k}.{resume}.json");
-    let mut pf = std::fs::OpenOptions::new().create(true).write(true).truncate(false).open(&progress_path).expect("progress file");
+    let mut pf = std::fs::OpenOptions::new().create(true).read(true).write(true).truncate(false).open(&progress_path).expect("progress file");
     let mut vf = std::fs::OpenOptions::new().create(true).append(true).open(&viol_path).expect("violations file");
     map_progress(&pf);
     mc_core::alloc::CAP_HOOK.store(cap_hook as usize, std::sync::atomic::Ordering::Relaxed);
